@@ -497,12 +497,14 @@ Qed.
 (* ------------------------------------------------------------------ P0 no_update_keeps_fts *)
 Theorem no_update_keeps_fts q w sp fi r : getitem q w false sp fi = Ok r -> sfts r = sfts q.
 Proof.
-  unfold getitem. destruct w as [i|a b step|l|ls|name].
+  unfold getitem. destruct w as [i|a b step|l|ls|name|idx|].
   - destruct (_ || _); [discriminate|]. intros H. inversion H. reflexivity.
   - destruct step as [[|p|p]|]; try discriminate; intros H; inversion H; reflexivity.
   - rewrite extract_locs. intros H. inversion H. reflexivity.
   - rewrite extract_locs. intros H. inversion H. reflexivity.
   - destruct (fts_get name (sfts q)); [|discriminate]. rewrite extract_locs. intros H. inversion H. reflexivity.
+  - destruct (nth_error _ _); [|discriminate]. rewrite extract_locs. intros H. inversion H. reflexivity.
+  - discriminate.
 Qed.
 Lemma no_update_keeps_fts_rc q : sfts (seq_rc q false) = sfts q.
 Proof. reflexivity. Qed.
@@ -799,8 +801,25 @@ Proof.
     intros E. apply Hn. apply Permutation_nil. rewrite <- E. exact (sort_locs_perm ls).
 Qed.
 
+(* ------------------------------------------------------------------ gap=None: the gap-aware model is the plain one *)
+Lemma join_locs_g_None s fi sp : forall ls prev, join_locs_g None s fi sp prev ls = join_locs s fi sp prev ls.
+Proof. induction ls as [|l r IH]; intros prev; [reflexivity|]. cbn [join_locs_g join_locs]. rewrite IH. reflexivity. Qed.
+Lemma slice_locs_g_None q ls sp fi u : slice_locs_g None q ls sp fi u = slice_locs q ls sp fi u.
+Proof. unfold slice_locs_g, slice_locs. rewrite join_locs_g_None. reflexivity. Qed.
+Theorem getitem_g_None q w u sp fi : getitem_g q w u sp fi None = getitem q w u sp fi.
+Proof.
+  destruct w as [i|a b step|l|ls|name|idx|]; unfold getitem_g, getitem.
+  - reflexivity.
+  - reflexivity.
+  - apply slice_locs_g_None.
+  - apply slice_locs_g_None.
+  - destruct (fts_get name (sfts q)); [apply slice_locs_g_None|reflexivity].
+  - destruct (nth_error _ _); [apply slice_locs_g_None|reflexivity].
+  - reflexivity.
+Qed.
+
 (* ------------------------------------------------------------------ the harness domain predicate implies the hypotheses above *)
-Theorem wf_C06_sound data fts w u sp fi : wf_C06 data fts w u sp fi = true ->
+Theorem wf_C06_sound data fts w u sp fi : wf_C06 data fts w u sp fi None = true ->
   exists fs ow, build_fts fts = Ok fs /\ build_win w = Ok ow /\
     let q := new_seq data fs in
     upper (sdata q) = sdata q /\ forallb in_alpha (sdata q) = true /\
@@ -812,34 +831,35 @@ Proof.
   destruct (build_win w) as [ow|e]; [|rewrite andb_false_r in H; discriminate].
   exists fs, ow. split; [reflexivity|]. split; [reflexivity|].
   apply andb_prop in H. destruct H as [H H5]. apply andb_prop in H. destruct H as [H _].
-  apply andb_prop in H. destruct H as [H _]. apply andb_prop in H. destruct H as [_ Ha].
+  apply andb_prop in H. destruct H as [H _]. apply andb_prop in H. destruct H as [H _].
+  apply andb_prop in H. destruct H as [_ Ha].
   apply andb_prop in H5. destruct H5 as [Hf Hw].
   cbn zeta. split; [apply new_seq_upper|]. split; [exact Ha|]. split; [exact Hf|].
   destruct ow; [exact Hw|exact I].
 Qed.
 Lemma win_ok_slice q a b step u : win_ok q (WSlice a b step) u = true -> step = None \/ step = Some 1.
 Proof.
-  unfold win_ok. intros Hs. destruct step as [[|[p|p|]|p]|]; try discriminate; auto.
+  unfold win_ok, win_ok_len. intros Hs. destruct step as [[|[p|p|]|p]|]; try discriminate; auto.
 Qed.
 (* end to end, from the raw constructor arguments of a generated case: tracked slice and tracked rc *)
-Theorem run_slice_tracked data fts a b step sp fi : wf_C06 data fts (RSlice a b step) true sp fi = true ->
+Theorem run_slice_tracked data fts a b step sp fi : wf_C06 data fts (RSlice a b step) true sp fi None = true ->
   exists fs, build_fts fts = Ok fs /\
     let len := Z.of_nat (length data) in
     let lo := fst (slice_bounds len a b) in
     let hi := snd (slice_bounds len a b) in
-    run_op data fts (RSlice a b step) true sp fi = Ok (mkSeq (zsub (upper data) lo hi) (slice_spec lo hi lo fs)).
+    run_op data fts (RSlice a b step) true sp fi None = Ok (mkSeq (zsub (upper data) lo hi) (slice_spec lo hi lo fs)).
 Proof.
   intros H. apply wf_C06_sound in H. destruct H as (fs & ow & E1 & E2 & Hup & Ha & Hf & Hw).
   cbn [build_win] in E2. inversion E2; subst ow. clear E2.
   exists fs. split; [exact E1|]. cbn zeta.
   apply win_ok_slice in Hw. rename Hw into Hst.
-  unfold run_op. rewrite E1. cbn [bind build_win].
+  unfold run_op. rewrite E1. cbn [bind build_win]. rewrite getitem_g_None.
   pose proof (window_tracking (new_seq data fs) a b step sp fi Hup Hst Hf) as [G _].
   rewrite G. cbn [new_seq sdata sfts]. rewrite upper_length. reflexivity.
 Qed.
-Theorem run_rc_tracked data fts sp fi : wf_C06 data fts RRc true sp fi = true ->
+Theorem run_rc_tracked data fts sp fi : wf_C06 data fts RRc true sp fi None = true ->
   exists fs, build_fts fts = Ok fs /\
-    run_op data fts RRc true sp fi = Ok (mkSeq (rc (upper data)) (map (feature_rc (Z.of_nat (length data))) fs)).
+    run_op data fts RRc true sp fi None = Ok (mkSeq (rc (upper data)) (map (feature_rc (Z.of_nat (length data))) fs)).
 Proof.
   intros H. apply wf_C06_sound in H. destruct H as (fs & ow & E1 & E2 & Hup & Ha & Hf & _).
   cbn [build_win] in E2. inversion E2; subst ow. clear E2.
@@ -853,8 +873,331 @@ Qed.
 Lemma empty_window_ok :
   let data := bs "ACGTACGT"%bs in
   let fts := [(Some (bs "cds"%bs), [(0, 8, 43, 0)])] in
-  wf_C06 data fts (RSlice (Some 3) (Some 3) None) true None None = true /\
-  run_op data fts (RSlice (Some 3) (Some 3) None) true None None = Ok (mkSeq [] []) /\
-  wf_C06 data fts (RSlice (Some 5) (Some 2) None) true None None = true /\
-  run_op data fts (RSlice (Some 5) (Some 2) None) true None None = Ok (mkSeq [] []).
+  wf_C06 data fts (RSlice (Some 3) (Some 3) None) true None None None = true /\
+  run_op data fts (RSlice (Some 3) (Some 3) None) true None None None = Ok (mkSeq [] []) /\
+  wf_C06 data fts (RSlice (Some 5) (Some 2) None) true None None None = true /\
+  run_op data fts (RSlice (Some 5) (Some 2) None) true None None None = Ok (mkSeq [] []).
 Proof. vm_compute. repeat split; reflexivity. Qed.
+
+(* the constructor forms: with Location objects (mode 0) the modes coincide; a successful tuple construction (mode 1) too *)
+Lemma build_fts_m_0 rs : build_fts_m 0 rs = build_fts rs.
+Proof.
+  induction rs as [|r t IH]; [reflexivity|]. cbn [build_fts_m build_fts]. change (0 =? 2) with false. cbv iota.
+  rewrite IH. unfold build_ft_m, build_ft. change (0 =? 1) with false. destruct (build_locs (snd r)); reflexivity.
+Qed.
+Lemma build_fts_m_1 rs fs : build_fts rs = Ok fs -> build_fts_m 1 rs = Ok fs.
+Proof.
+  revert fs. induction rs as [|r t IH]; intros fs H; [exact H|]. cbn [build_fts_m build_fts] in *. change (1 =? 2) with false. cbv iota.
+  unfold build_ft_m, build_ft in *. destruct (build_locs (snd r)) as [ls|e]; [|discriminate]. cbn [bind] in *.
+  destruct (mk_loctuple ls) as [ls'|e]; [|discriminate]. cbn [bind] in *.
+  destruct (build_fts t) as [fs'|e]; [|discriminate]. rewrite (IH fs' eq_refl). exact H.
+Qed.
+Theorem run_op_modes mode data fts w u sp fi gap : wf_C06 data fts w u sp fi gap = true -> (mode = 0 \/ mode = 1) ->
+  run_op_m mode data fts w u sp fi gap = run_op data fts w u sp fi gap.
+Proof.
+  intros H Hm. unfold run_op_m, run_op. destruct Hm as [-> | ->]; [rewrite build_fts_m_0; reflexivity|].
+  unfold wf_C06 in H. destruct (build_fts fts) as [fs|e] eqn:E; [|rewrite andb_false_r in H; discriminate].
+  rewrite (build_fts_m_1 _ _ E). reflexivity.
+Qed.
+
+(* ------------------------------------------------------------------ depth round: cheap clauses *)
+(* update_fts with more than one location is rejected (by design), whatever the other options *)
+Theorem multi_update_error gap q ls sp fi : (1 < length ls)%nat -> slice_locs_g gap q ls sp fi true = Err E_Value.
+Proof.
+  intros H. unfold slice_locs_g. destruct (1 <? Z.of_nat (length ls)) eqn:E; [reflexivity|lia].
+Qed.
+(* with a single location filler and splitter have nothing to separate *)
+Theorem single_options_irrelevant gap q l sp fi u : slice_locs_g gap q [l] sp fi u = slice_locs_g gap q [l] None None u.
+Proof. unfold slice_locs_g. destruct fi, sp; reflexivity. Qed.
+(* an int index outside [-len, len) raises IndexError, like str *)
+Theorem int_index_error q i u sp fi :
+  let len := Z.of_nat (length (sdata q)) in
+  (i < - len \/ len <= i) -> getitem q (WInt i) u sp fi = Err E_Index.
+Proof.
+  intros len H. unfold getitem. fold len.
+  destruct (((if i <? 0 then i + len else i) <? 0) || (len <=? (if i <? 0 then i + len else i))) eqn:E; [reflexivity|].
+  destruct (i <? 0) eqn:E0; lia.
+Qed.
+(* without update_fts the features are those of the receiver, for every option (gap included) *)
+Theorem no_update_keeps_fts_g q w sp fi gap r : getitem_g q w false sp fi gap = Ok r -> sfts r = sfts q.
+Proof.
+  destruct gap as [g|]; [|rewrite getitem_g_None; apply no_update_keeps_fts].
+  unfold getitem_g. destruct w as [i|a b step|l|ls|name|idx|].
+  - destruct (_ || _); [discriminate|]. intros H. inversion H. reflexivity.
+  - apply no_update_keeps_fts.
+  - unfold slice_locs_g. intros H. inversion H. reflexivity.
+  - unfold slice_locs_g. intros H. inversion H. reflexivity.
+  - destruct (fts_get name (sfts q)); [|discriminate]. unfold slice_locs_g. intros H. inversion H. reflexivity.
+  - destruct (nth_error _ _); [|discriminate]. unfold slice_locs_g. intros H. inversion H. reflexivity.
+  - discriminate.
+Qed.
+
+(* ------------------------------------------------------------------ unstranded features ('.' and '?'): coordinate-wise tracking *)
+(* under rc the location is mirrored, the strand value is kept, and the mirrored location addresses the reverse
+   complement of the residues the original addressed (there is no strand to flip) *)
+Theorem rc_tracking_unstranded s l : forallb in_alpha s = true ->
+  0 <= lstart l -> lstart l <= lstop l -> lstop l <= Z.of_nat (length s) -> is_pm (lstrand l) = false ->
+  let l' := loc_reverse (Z.of_nat (length s)) l in
+  lstart l' = Z.of_nat (length s) - lstop l /\ lstop l' = Z.of_nat (length s) - lstart l /\ lstrand l' = lstrand l /\
+  piece (rc s) l' = rc (piece s l).
+Proof.
+  intros Ha H1 H2 H3 Hpm l'. split; [reflexivity|]. split; [reflexivity|].
+  assert (Es : lstrand l' = lstrand l) by (apply strand_reverse_other; exact Hpm).
+  split; [exact Es|].
+  assert (Hm : is_minus l = false).
+  { unfold is_minus. unfold is_pm in Hpm. apply orb_false_iff in Hpm. tauto. }
+  assert (Hm' : is_minus l' = false) by (unfold is_minus in *; rewrite Es; exact Hm).
+  assert (Lr : length (rc s) = length s) by apply rc_length.
+  rewrite (piece_in (rc s)) by (simpl; rewrite ?Lr; lia).
+  rewrite (piece_in s) by lia.
+  unfold spiece. rewrite Hm, Hm'. cbn [l' loc_reverse lstart lstop]. unfold zsub.
+  replace (Z.to_nat (Z.of_nat (length s) - lstop l)) with (length s - Z.to_nat (lstop l))%nat by lia.
+  replace (Z.to_nat (Z.of_nat (length s) - lstart l)) with (length s - Z.to_nat (lstart l))%nat by lia.
+  apply sub_rc; [exact Ha|lia|lia].
+Qed.
+(* in a window an unstranded location is tracked like a plus-strand one (window_tracking holds for every strand value);
+   in a minus-strand Location window it is mirrored coordinate-wise and addresses the reverse complement *)
+Theorem feature_window_unstranded s w l : forallb in_alpha s = true ->
+  let len := Z.of_nat (length s) in
+  let lo := lstart w in
+  let hi := lstop w in
+  loc_in len w = true -> loc_in len l = true -> overlaps lo hi l = true -> is_pm (lstrand l) = false ->
+  let c := cut_spec lo hi lo l in
+  piece (zsub s lo hi) c = zsub s (Z.max lo (lstart l)) (Z.min hi (lstop l)) /\
+  piece (rc (zsub s lo hi)) (loc_reverse (hi - lo) c) = rc (zsub s (Z.max lo (lstart l)) (Z.min hi (lstop l))).
+Proof.
+  intros Ha len lo hi Hw Hl Ho Hpm c.
+  pose proof (loc_in_range _ _ Hw) as Hr. fold lo in Hr. fold hi in Hr.
+  assert (Hm : is_minus l = false).
+  { unfold is_minus. unfold is_pm in Hpm. apply orb_false_iff in Hpm. tauto. }
+  assert (Hu : piece (zsub s lo hi) c = zsub s (Z.max lo (lstart l)) (Z.min hi (lstop l))).
+  { unfold c. erewrite window_piece; try reflexivity; try exact Ho; try exact Hl; unfold len in *; try lia.
+    unfold spiece. rewrite Hm. reflexivity. }
+  split; [exact Hu|].
+  pose proof (cut_spec_range lo hi len l Hl Ho) as Hc. fold c in Hc.
+  assert (Lu : Z.of_nat (length (zsub s lo hi)) = hi - lo) by (apply zsub_length; unfold len in *; lia).
+  rewrite <- Hu. rewrite <- Lu.
+  apply rc_tracking_unstranded; try lia.
+  - unfold zsub. apply forallb_sub. exact Ha.
+  - exact Hpm.
+Qed.
+
+(* ------------------------------------------------------------------ rc_tracking for RNA, in the sense of C05 (up to writing U for T) *)
+Lemma u2t_sub s x y : u2t (sub s x y) = sub (u2t s) x y.
+Proof. unfold u2t, replace1. symmetry. apply sub_map. Qed.
+Lemma u2t_length s : length (u2t s) = length s.
+Proof. unfold u2t, replace1. apply map_length. Qed.
+(* sugar complements a piece by itself ('U' in piece decides between T and U), so residues of an RNA sequence are tracked
+   up to u2t -- exactly the statement C05 proves for rc on RNA *)
+Theorem piece_rc_rna s l : forallb in_alpha_rna s = true ->
+  0 <= lstart l -> lstart l <= lstop l -> lstop l <= Z.of_nat (length s) -> is_pm (lstrand l) = true ->
+  u2t (piece (rc s) (loc_reverse (Z.of_nat (length s)) l)) = u2t (piece s l).
+Proof.
+  intros Ha H1 H2 H3 Hpm.
+  assert (Lr : length (rc s) = length s) by apply rc_length.
+  rewrite (piece_in (rc s)) by (simpl; rewrite ?Lr; lia).
+  rewrite (piece_in s) by lia.
+  unfold spiece, is_minus. cbn [loc_reverse lstart lstop lstrand].
+  rewrite minus_reverse by exact Hpm.
+  pose proof (u2t_alpha s Ha) as Hat.
+  assert (E : u2t (zsub (rc s) (Z.of_nat (length s) - lstop l) (Z.of_nat (length s) - lstart l))
+              = rc (u2t (zsub s (lstart l) (lstop l)))).
+  { unfold zsub. rewrite !u2t_sub. rewrite rna_rc.
+    replace (Z.to_nat (Z.of_nat (length s) - lstop l)) with (length (u2t s) - Z.to_nat (lstop l))%nat by (rewrite u2t_length; lia).
+    replace (Z.to_nat (Z.of_nat (length s) - lstart l)) with (length (u2t s) - Z.to_nat (lstart l))%nat by (rewrite u2t_length; lia).
+    apply sub_rc; [exact Hat|lia|rewrite u2t_length; lia]. }
+  destruct (byte_eqb (lstrand l) S_REVERSE); cbn [negb].
+  - rewrite E. symmetry. apply rna_rc.
+  - rewrite rna_rc, E. apply rc_involutive. unfold zsub. rewrite u2t_sub. apply forallb_sub. exact Hat.
+Qed.
+
+(* ------------------------------------------------------------------ the gap option: windows count residues *)
+(* the sequence without its gap columns *)
+Definition degap (g s : str) : str := filter (fun c => negb (has c g)) s.
+(* column of residue number i (the length of s when there are not that many residues) *)
+Fixpoint col_of (g s : str) (i : nat) : nat :=
+  match s with
+  | [] => O
+  | c :: r => if has c g then S (col_of g r i) else match i with O => O | S k => S (col_of g r k) end
+  end.
+
+Lemma nogaps_from_length g s : forall k, length (nogaps_from k g s) = length (degap g s).
+Proof.
+  unfold degap. induction s as [|c r IH]; intros k; [reflexivity|]. cbn [nogaps_from filter].
+  destruct (has c g); cbn [negb]; [apply IH|cbn [length]; f_equal; apply IH].
+Qed.
+Lemma nogaps_from_nth g s : forall k i, (i < length (degap g s))%nat ->
+  nth i (nogaps_from k g s) 0 = k + Z.of_nat (col_of g s i).
+Proof.
+  unfold degap. induction s as [|c r IH]; intros k i Hi; [simpl in Hi; lia|].
+  cbn [nogaps_from col_of]. cbn [filter] in Hi. destruct (has c g); cbn [negb] in Hi.
+  - rewrite IH by exact Hi. lia.
+  - destruct i as [|j]; [cbn [nth]; lia|]. cbn [nth]. cbn [length] in Hi. rewrite IH by lia. lia.
+Qed.
+Lemma col_of_beyond g s : forall i, (length (degap g s) <= i)%nat -> col_of g s i = length s.
+Proof.
+  unfold degap. induction s as [|c r IH]; intros i Hi; [reflexivity|].
+  cbn [col_of]. cbn [filter] in Hi. destruct (has c g); cbn [negb] in Hi.
+  - cbn [length]. f_equal. apply IH. exact Hi.
+  - cbn [length] in *. destruct i as [|j]; [lia|]. f_equal. apply IH. lia.
+Qed.
+Lemma col_of_le g s : forall i, (col_of g s i <= length s)%nat.
+Proof.
+  induction s as [|c r IH]; intros i; [simpl; lia|]. cbn [col_of length].
+  destruct (has c g); [specialize (IH i); lia|destruct i as [|j]; [lia|specialize (IH j); lia]].
+Qed.
+Lemma col_of_mono g s : forall i j, (i <= j)%nat -> (col_of g s i <= col_of g s j)%nat.
+Proof.
+  induction s as [|c r IH]; intros i j H; [simpl; lia|]. cbn [col_of].
+  destruct (has c g); [specialize (IH i j H); lia|].
+  destruct i as [|i']; [lia|]. destruct j as [|j']; [lia|]. specialize (IH i' j'). lia.
+Qed.
+(* adj(i) for a non-negative residue number is the column of that residue *)
+Lemma adj_col g s x : 0 <= x -> adj g s (Some x) = Some (Z.of_nat (col_of g s (Z.to_nat x))).
+Proof.
+  intros Hx. unfold adj, nogaps. rewrite nogaps_from_length.
+  destruct (x <? 0) eqn:E0; [lia|]. f_equal.
+  destruct (x <? Z.of_nat (length (degap g s))) eqn:E.
+  - rewrite nogaps_from_nth by lia. lia.
+  - rewrite col_of_beyond by lia. reflexivity.
+Qed.
+Lemma degap_firstn g s : forall i, degap g (firstn (col_of g s i) s) = firstn i (degap g s).
+Proof.
+  unfold degap. induction s as [|c r IH]; intros i; [destruct i; reflexivity|].
+  cbn [col_of]. destruct (has c g) eqn:E.
+  - cbn [firstn filter]. rewrite E. cbn [negb]. apply IH.
+  - destruct i as [|k]; [reflexivity|]. cbn [firstn filter]. rewrite E. cbn [negb firstn]. f_equal. apply IH.
+Qed.
+Lemma degap_app g a b : degap g (a ++ b) = degap g a ++ degap g b.
+Proof. unfold degap. apply filter_app. Qed.
+Lemma firstn_split {A} (l : list A) x y : (x <= y)%nat -> firstn y l = firstn x l ++ sub l x y.
+Proof.
+  intros H. unfold sub. rewrite <- (firstn_skipn x (firstn y l)) at 1. f_equal.
+  - rewrite firstn_firstn. f_equal. lia.
+  - rewrite skipn_firstn_comm. reflexivity.
+Qed.
+(* gap-aware window: with the gap columns removed it is the plain window of the ungapped sequence *)
+Theorem gap_window_spec g s x y : 0 <= x -> x <= y ->
+  degap g (gslice (Some g) s (Some x) (Some y)) = zsub (degap g s) x y.
+Proof.
+  intros Hx Hxy. unfold gslice. rewrite !adj_col by lia.
+  set (cx := col_of g s (Z.to_nat x)). set (cy := col_of g s (Z.to_nat y)).
+  assert (Hc : (cx <= cy)%nat) by (apply col_of_mono; lia).
+  pose proof (col_of_le g s (Z.to_nat y)) as Hy. fold cy in Hy.
+  rewrite py_slice_in by lia. rewrite !Nat2Z.id.
+  pose proof (degap_firstn g s (Z.to_nat y)) as Fy. fold cy in Fy.
+  pose proof (degap_firstn g s (Z.to_nat x)) as Fx. fold cx in Fx.
+  rewrite (firstn_split s cx cy Hc), degap_app, Fx in Fy.
+  rewrite (firstn_split (degap g s) (Z.to_nat x) (Z.to_nat y)) in Fy by lia.
+  apply app_inv_head in Fy. exact Fy.
+Qed.
+(* on a sequence without gap characters the option changes nothing *)
+Lemma col_of_nogap g s : forallb (fun c => negb (has c g)) s = true -> forall i, col_of g s i = Nat.min i (length s).
+Proof.
+  induction s as [|c r IH]; intros H i; [simpl; lia|]. simpl in H. apply andb_prop in H. destruct H as [Hc Hr].
+  cbn [col_of length]. apply negb_true_iff in Hc. rewrite Hc. destruct i as [|k]; [reflexivity|]. rewrite IH by exact Hr. reflexivity.
+Qed.
+Theorem gap_neutral g s x y : forallb (fun c => negb (has c g)) s = true -> 0 <= x -> 0 <= y ->
+  gslice (Some g) s (Some x) (Some y) = gslice None s (Some x) (Some y).
+Proof.
+  intros H Hx Hy. unfold gslice. rewrite !adj_col by lia. rewrite !col_of_nogap by exact H.
+  unfold py_slice, slice_bounds, clampZ.
+  destruct (Z.of_nat (Nat.min (Z.to_nat x) (length s)) <? 0) eqn:E1; [lia|].
+  destruct (Z.of_nat (Nat.min (Z.to_nat y) (length s)) <? 0) eqn:E2; [lia|].
+  destruct (x <? 0) eqn:E3; [lia|]. destruct (y <? 0) eqn:E4; [lia|].
+  f_equal; lia.
+Qed.
+
+(* minus-strand windows with gap: gap symbols '-' and '.' are fixed by the complement, so removing gaps commutes with rc *)
+Lemma gapsym_trans c : is_gapsym (trans1 c) = is_gapsym c.
+Proof. bytes c. Qed.
+Lemma gapsym_fixed c : is_gapsym c = true -> trans1 c = c.
+Proof. bytes c. Qed.
+Lemma has_gapsym g c : forallb is_gapsym g = true -> has c g = true -> is_gapsym c = true.
+Proof. intros Hg H. apply has_In in H. rewrite forallb_forall in Hg. apply Hg. exact H. Qed.
+Lemma has_trans1 g c : forallb is_gapsym g = true -> has (trans1 c) g = has c g.
+Proof.
+  intros Hg. destruct (is_gapsym c) eqn:E.
+  - rewrite gapsym_fixed by exact E. reflexivity.
+  - destruct (has c g) eqn:E1; [apply (has_gapsym g c Hg) in E1; congruence|].
+    destruct (has (trans1 c) g) eqn:E2; [|reflexivity].
+    apply (has_gapsym g _ Hg) in E2. rewrite gapsym_trans in E2. congruence.
+Qed.
+Lemma degap_map_trans g s : forallb is_gapsym g = true -> degap g (map trans1 s) = map trans1 (degap g s).
+Proof.
+  intros Hg. unfold degap. induction s as [|c r IH]; [reflexivity|]. cbn [map filter]. rewrite has_trans1 by exact Hg.
+  destruct (has c g); cbn [negb]; [exact IH|cbn [map]; f_equal; exact IH].
+Qed.
+Lemma degap_rev g s : degap g (rev s) = rev (degap g s).
+Proof.
+  unfold degap. induction s as [|c r IH]; [reflexivity|]. cbn [rev]. rewrite filter_app, IH. cbn [filter].
+  destruct (negb (has c g)); [reflexivity|rewrite app_nil_r; reflexivity].
+Qed.
+Lemma degap_alpha g s : forallb in_alpha s = true -> forallb in_alpha (degap g s) = true.
+Proof. intros H. rewrite forallb_forall in *. intros c Hc. apply H. apply filter_In in Hc. tauto. Qed.
+Lemma degap_rc g s : forallb is_gapsym g = true -> forallb in_alpha s = true -> degap g (rc s) = rc (degap g s).
+Proof.
+  intros Hg Ha. rewrite rc_alpha_map by exact Ha. rewrite rc_alpha_map by (apply degap_alpha; exact Ha).
+  rewrite degap_rev, degap_map_trans by exact Hg. reflexivity.
+Qed.
+(* seq.sl(gap=g)[Location]: with the gap columns removed, the piece is the piece of the ungapped sequence *)
+Theorem gap_piece_spec g s l : forallb is_gapsym g = true -> forallb in_alpha s = true ->
+  0 <= lstart l -> lstart l <= lstop l ->
+  degap g (gpiece (Some g) s l) = spiece (degap g s) (lstart l) (lstop l) (is_minus l).
+Proof.
+  intros Hg Ha H1 H2. unfold gpiece, spiece. destruct (is_minus l).
+  - rewrite degap_rc; [|exact Hg|]. 
+    + rewrite gap_window_spec by lia. reflexivity.
+    + unfold gslice. rewrite py_slice_bounds. apply forallb_sub. exact Ha.
+  - apply gap_window_spec; lia.
+Qed.
+
+(* ------------------------------------------------------------------ filler pads the skipped length *)
+Lemma repeat_str_length n f : length (repeat_str n f) = (n * length f)%nat.
+Proof. induction n as [|k IH]; [reflexivity|]. cbn [repeat_str]. rewrite app_length, IH. lia. Qed.
+Lemma piece_length s l : 0 <= lstart l -> lstart l <= lstop l -> lstop l <= Z.of_nat (length s) ->
+  Z.of_nat (length (piece s l)) = lstop l - lstart l.
+Proof.
+  intros H1 H2 H3. rewrite piece_in by lia. unfold spiece.
+  destruct (is_minus l); [rewrite rc_length|]; apply zsub_length; lia.
+Qed.
+(* consecutive plus-strand (or unstranded) locations in ascending order without overlap, inside the sequence *)
+Fixpoint chain_ok (len : Z) (p : loc) (r : list loc) : bool :=
+  match r with
+  | [] => true
+  | l :: t => negb (is_minus l) && (lstop p <=? lstart l) && (lstart l <=? lstop l) && (lstop l <=? len) && chain_ok len l t
+  end.
+Lemma last_cons {A} (t : list A) : forall x d, last (x :: t) d = last t x.
+Proof.
+  induction t as [|a t IH]; intros x d; [reflexivity|].
+  change (last (x :: a :: t) d) with (last (a :: t) d). rewrite (IH a d), (IH a x). reflexivity.
+Qed.
+Lemma filler_chain s c : forall r p, 0 <= lstop p -> chain_ok (Z.of_nat (length s)) p r = true ->
+  Z.of_nat (length (concat (flat_map (fun pl => sep_spec (Some [c]) None (fst pl) (snd pl) ++ [piece s (snd pl)])
+                                     (combine (p :: r) r)))) = lstop (last r p) - lstop p.
+Proof.
+  induction r as [|l t IH]; intros p Hp H; [simpl; lia|].
+  cbn [chain_ok] in H. apply andb_prop in H. destruct H as [H H5]. apply andb_prop in H. destruct H as [H H4].
+  apply andb_prop in H. destruct H as [H H3]. apply andb_prop in H. destruct H as [H1 H2].
+  set (F := fun pl : loc * loc => sep_spec (Some [c]) None (fst pl) (snd pl) ++ [piece s (snd pl)]) in *.
+  change (combine (p :: l :: t) (l :: t)) with ((p, l) :: combine (l :: t) t).
+  change (flat_map F ((p, l) :: combine (l :: t) t)) with (F (p, l) ++ flat_map F (combine (l :: t) t)).
+  rewrite concat_app, app_length, Nat2Z.inj_add.
+  rewrite (IH l) by (try exact H5; lia).
+  rewrite last_cons.
+  assert (Hm : is_minus l = false) by (apply negb_true_iff; exact H1).
+  subst F. cbn [fst snd]. unfold sep_spec, fill_num. rewrite Hm. rewrite app_nil_r.
+  assert (Pl : Z.of_nat (length (piece s l)) = lstop l - lstart l) by (apply piece_length; lia).
+  destruct (0 <? lstart l - lstop p) eqn:E.
+  - cbn [app concat]. rewrite !app_length, repeat_str_length. cbn [length]. lia.
+  - cbn [app concat]. rewrite ?app_length. cbn [length]. lia.
+Qed.
+(* seq.sl(filler=c)[feature] on ascending non-overlapping plus-strand locations has the length of the feature's range:
+   every skipped stretch is replaced by as many filler characters *)
+Theorem filler_pads s c l0 r : negb (is_minus l0) = true ->
+  0 <= lstart l0 -> lstart l0 <= lstop l0 -> lstop l0 <= Z.of_nat (length s) -> chain_ok (Z.of_nat (length s)) l0 r = true ->
+  Z.of_nat (length (concat (extract_spec s (Some [c]) None (l0 :: r)))) = lstop (last r l0) - lstart l0.
+Proof.
+  intros Hm H1 H2 H3 Hc. unfold extract_spec. cbn [concat]. rewrite app_length, Nat2Z.inj_add.
+  rewrite piece_length by lia. rewrite (filler_chain s c r l0) by (try exact Hc; lia). lia.
+Qed.
